@@ -58,6 +58,7 @@ TABLE = {
     "fc1_two_core": (12, TWO_CORE), "near_scale": (15, ROTATE),
     "multi_out_cpu": (24, MIXED), "slice_masks": (40, MIXED),
     "rank_sweep": (252, ROTATE),        # 21 kinds x ranks 1-6 x the two last-axis variants (gen_ranksweep.py)
+    "io_passthrough": (36, MIXED),      # 12 kinds x 6 surroundings (gen_iopass.py): interface tensors no operator stands behind
     "shared_consts": (15, ROTATE),      # 12 axes of harness/netgen_shared.py (one per weight re-laying rewrite) + 3 drawn
 }
 DEFAULT = (3, ROTATE)
